@@ -225,7 +225,7 @@ def rand_leaf(rng):
         s = G.str_payload(rng, '\x01', True, 10).encode()
         return (rng.choice(['str', 'hstr', 'sstr']), s)
     if r < 0.8:
-        return ('chars', rng.choice([b'VOLT', b'A1_b', b'x']))
+        return ('chars', rng.choice([b'VOLT', b'A1_b', b'x', (b'MNEMONIC_9' * 4)[:rng.randint(1, 40)]]))
     if r < 0.93:
         n = rng.choice([0, 1, 2, 9, 10, 11, 40])
         return ('arb', bytes(rng.randrange(256) for _ in range(n)))
